@@ -164,8 +164,12 @@ package rapid
 //@ event AwaitInvokeAgentsReadyOK = ret core.(InvokeFlowSynchronization).AwaitAgentsReady when r0 == nil
 //@ event ActiveExtensionsCheck = ret rapid.(*rapidContext).HasActiveExtensions
 
+// the runtime-done bookkeeping of one invocation: rtDoneBooked(c) relates the flag on the context to the ghost count
+//@ spec rtDoneBooked(execCtx *rapidContext) bool = since(EvInvokeRuntimeDone, EvInvokeStart) <= 1 && (since(EvInvokeRuntimeDone, EvInvokeStart) >= 1 ==> execCtx.invokeRuntimeDoneSent)
 //@ func sendInvokeStartLogEvent
 //@   requires execCtx != nil
+//@   ensures [a-new-invocation-has-no-runtime-done-yet] since(EvInvokeRuntimeDone, EvInvokeStart) == 0
+//@   ensures [and-the-flag-says-so] !execCtx.invokeRuntimeDoneSent
 //@   ensures [one-invoke-start] delta(EvInvokeStart) == 1 && delta(EvInvokeRuntimeDone) == 0 && lastarg(EvInvokeStart, 1).RequestID == invokeRequestID
 
 // inline init: initialisation inside the first invocation
@@ -198,6 +202,7 @@ package rapid
 // the body of one invocation
 //@ func doInvoke$1
 //@   requires execCtx != nil && ctxWired(execCtx) && invokeRequest != nil && mx != nil && sbInfoFromInit.EnvironmentVariables != nil
+//@   ensures [at-most-one-runtime-done-per-invocation] rtDoneBooked(execCtx)
 //@   ensures [one-invoke-start] delta(EvInvokeStart) == 1 && lastarg(EvInvokeStart, 1).RequestID == old(invokeRequest).ID
 //@   ensures [inline-init-only-when-needed] delta(InlineInit) == ite(old(execCtx.initDone), 0, 1) && (delta(InlineInit) == 1 && delta(InlineInitOK) == 0 ==> r0 != nil && delta(InitBarriers) == 0 && delta(ReleaseRuntime) == 0)
 //@   ensures [delivered-only-after-init] delta(ReleaseRuntime) >= 1 ==> execCtx.initDone && (delta(InlineInit) == 1 ==> delta(InlineInitOK) == 1 && last(InlineInitOK) < first(ReleaseRuntime))
@@ -209,6 +214,7 @@ package rapid
 
 //@ func doInvoke
 //@   requires execCtx != nil && invokeRequest != nil && mx != nil && sbInfoFromInit.EnvironmentVariables != nil
+//@   ensures [at-most-one-runtime-done-per-invocation] rtDoneBooked(execCtx)
 //@   ensures [one-invoke-start] delta(EvInvokeStart) == 1 && lastarg(EvInvokeStart, 1).RequestID == old(invokeRequest.ID)
 //@   ensures [delivered-only-after-init] delta(ReleaseRuntime) >= 1 ==> execCtx.initDone
 //@   ensures [barriers-armed-before-delivery] delta(InitBarriers) <= 1 && (delta(ReleaseRuntime) >= 1 ==> delta(InitBarriersOK) == 1 && last(InitBarriersOK) < first(ReleaseRuntime))
@@ -386,9 +392,9 @@ package rapid
 // C15 "at most one runtime-done after the start of an invocation" spans calls (the invocation and the reset that ends it):
 // since(E, S) counts the occurrences of E after the last S, whatever the history before this call was.
 //@ func handleReset
-//@   requires since(EvInvokeRuntimeDone, EvInvokeStart) <= 1
-//@   ensures [at-most-one-runtime-done-per-invocation] since(EvInvokeRuntimeDone, EvInvokeStart) <= 1
+//@   requires execCtx != nil && rtDoneBooked(execCtx)
+//@   ensures [at-most-one-runtime-done-per-invocation] rtDoneBooked(execCtx)
 //@   ensures [full-teardown-with-the-request's-deadline-and-reason] delta(FullShutdown) == 1 && lastarg(FullShutdown, 1) == execCtx && lastarg(FullShutdown, 2) == resetEvent.DeadlineNs && lastarg(FullShutdown, 3) == resetEvent.Reason
 //@   ensures [new-generation-after-the-teardown] execCtx.runtimeDomainGeneration == (old(execCtx.runtimeDomainGeneration) + 1) % 4294967296
-//@   ensures [runtime-done-only-for-timeout-or-failure] delta(EvInvokeRuntimeDone) == ite(resetEvent.Reason == "failure" || resetEvent.Reason == "timeout", 1, 0) && delta(EvInvokeRuntimeDoneSuccess) == 0 && (delta(EvInvokeRuntimeDone) == 1 ==> first(EvInvokeRuntimeDone) < first(FullShutdown) && lastarg(EvInvokeRuntimeDone, 1).Status == ite(resetEvent.Reason == "timeout", "timeout", lastarg(EvInvokeRuntimeDone, 1).Status))
-//@   ensures [timeout-status-says-timeout] resetEvent.Reason == "timeout" ==> lastarg(EvInvokeRuntimeDone, 1).Status == "timeout" && lastarg(EvInvokeRuntimeDone, 1).ErrorType == nil
+//@   ensures [runtime-done-only-for-timeout-or-failure] delta(EvInvokeRuntimeDone) == ite((resetEvent.Reason == "failure" || resetEvent.Reason == "timeout") && !old(execCtx.invokeRuntimeDoneSent), 1, 0) && delta(EvInvokeRuntimeDoneSuccess) == 0 && (delta(EvInvokeRuntimeDone) == 1 ==> first(EvInvokeRuntimeDone) < first(FullShutdown) && lastarg(EvInvokeRuntimeDone, 1).Status == ite(resetEvent.Reason == "timeout", "timeout", lastarg(EvInvokeRuntimeDone, 1).Status))
+//@   ensures [timeout-status-says-timeout] resetEvent.Reason == "timeout" && !old(execCtx.invokeRuntimeDoneSent) ==> lastarg(EvInvokeRuntimeDone, 1).Status == "timeout" && lastarg(EvInvokeRuntimeDone, 1).ErrorType == nil
